@@ -104,13 +104,17 @@ def r14_6_encode_loop(ctx, prog, rule="R14.6"):
             L = LP.Lin(namer)
             idx = L.lin(C.expr_of(pa, pa.log[sp[0]][2], 0, sp[0])[1])
             sym = [v for v in idx if v != 1]
-            if idx.get(1, 0) != 20 or len(sym) > 1 or (sym and ("widened" not in sym[0] or idx[sym[0]] != 1)):
+            # the split index is 20 + length (length the accumulator) or the accumulator itself (an absolute offset that
+            # starts at 20): base case = the constant 20, generic iteration = the widened accumulator (+ 20)
+            c0 = idx.get(1, 0)
+            if len(sym) > 1 or (sym and ("widened" not in sym[0] or idx[sym[0]] != 1)) or (not sym and c0 != 20) or (sym and c0 not in (0, 20)):
                 continue            # a later concrete iteration: labels of earlier iterations would be conflated
             if not sym:
                 facts = list(pro_facts)                  # base case: length = 0, facts of the prologue (buffer >= 20)
                 n_base += 1
             else:
-                facts = [LP.add({"len(buffer)": 1}, {sym[0]: 1, 1: 20}, -1)]      # Inv for the generic iteration
+                # Inv for the generic iteration: 20 <= split index <= len(buffer)
+                facts = [LP.add({"len(buffer)": 1}, dict(idx), -1), LP.add(dict(idx), {1: 20}, -1)]
                 n_step += 1
             w = LP.Walker(pa, facts, namer=namer, contracts=CONTRACTS, upper=upper, leaf_facts=leaf_facts)
             w.run(start=h, stop=end, with_ret=False)
@@ -122,6 +126,7 @@ def r14_6_encode_loop(ctx, prog, rule="R14.6"):
                     a2 = C.expr_of(pa, pa.log[sp2[0]][2], 0, sp2[0])
                     w.arith(a2[1])
                     w.prove("Inv': next length + 20 <= len(buffer)", LP.add(w.L.len_lin(a2[0]), w.L.lin(a2[1]), -1))
+                    w.prove("Inv': next split index >= 20", LP.add(w.L.lin(a2[1]), {1: 20}, -1))
             elif isinstance(C.expr_of(pa, pa.ret), tuple) and C.expr_of(pa, pa.ret)[0] == "Result::Ok":
                 w.arith(C.expr_of(pa, pa.ret))
             n_obl += w.n
